@@ -135,6 +135,39 @@ Check unreachable_nexthop_excluded :
     (unreachable_after ops a false = false -> e_filt e = false -> In e (selectable l)).
 Print Assumptions unreachable_nexthop_excluded.
 
+(* (3') Finding C20-4 (fixed): an insert_route that takes its shard lock after the
+   reachability reports [mids] of another thread were applied consults the set of
+   unreachable next hops as it is then, i.e. it is the insert of the sequential history
+   [pre ++ mids ++ [Insert ...]] to which (1)-(3) apply; the harness drives exactly
+   this schedule on real threads (Model: run_race). *)
+Theorem insert_race_is_sequential :
+  forall (c : cfg) (pre mids : list op) (peer sess : N) (p : prefix) (pid : N) (nh : option nexthop) (tok : N),
+    let s1 := fst (run c Fixed st0 (pre ++ mids)) in
+    step_ins_with c Fixed s1 (s_inv s1) peer sess p pid nh tok = step c Fixed s1 (Insert peer sess p pid nh tok).
+Proof. exact C20_insert_race_is_sequential. Qed.
+Check insert_race_is_sequential :
+  forall (c : cfg) (pre mids : list op) (peer sess : N) (p : prefix) (pid : N) (nh : option nexthop) (tok : N),
+    let s1 := fst (run c Fixed st0 (pre ++ mids)) in
+    step_ins_with c Fixed s1 (s_inv s1) peer sess p pid nh tok = step c Fixed s1 (Insert peer sess p pid nh tok).
+Print Assumptions insert_race_is_sequential.
+
+(* (3', witness) with the set read before the lock (the code before the fix) a path inserted
+   while the report is applied stays selectable although its next hop is unreachable. *)
+Theorem unreachable_nexthop_excluded_early_read_refuted :
+  exists (c : cfg) (pre mids : list op) peer sess p pid nh tok (e : entry) (a : N),
+    let s := early_state c pre mids peer sess p pid nh tok in
+    let l := d_l (s_get s p) in
+    In e l /\ e_nh e = Some a /\
+    unreachable_after (pre ++ mids ++ [Insert peer sess p pid nh tok]) a false = true /\ In e (selectable l).
+Proof. exact C20_unreachable_nexthop_excluded_early_read_refuted. Qed.
+Check unreachable_nexthop_excluded_early_read_refuted :
+  exists (c : cfg) (pre mids : list op) peer sess p pid nh tok (e : entry) (a : N),
+    let s := early_state c pre mids peer sess p pid nh tok in
+    let l := d_l (s_get s p) in
+    In e l /\ e_nh e = Some a /\
+    unreachable_after (pre ++ mids ++ [Insert peer sess p pid nh tok]) a false = true /\ In e (selectable l).
+Print Assumptions unreachable_nexthop_excluded_early_read_refuted.
+
 (* Witnesses kept from before the fix commits (findings C20-1, C20-2): the
    behaviour of distribute_update at that time ([Legacy]) violates (1a) and (1b). *)
 Theorem fib_replay_eq_ecmp_of_best_legacy_refuted :
